@@ -225,7 +225,7 @@ pub fn c12() -> DiffProp {
     DiffProp {
         id: "C12",
         families: vec![Fam::custom("map_history", Box::new(crate::gen_map::program), 100_000, 1_000_000, 200), pairs],
-        rule: "cases: histories (up to 60 operations on two maps) of literal construction, insert, remove, get, has_key, clear, len, keys/values/items and map == over a per-history key pool drawn from 47 key expressions: equal keys built differently (1, 2-1, 0.5+0.5; 0, -0, 0*-1; \"ab\", \"a\"+\"b\", a slice; equal tuples and nested tuples built separately; tuples with 0 vs -0), hash-colliding tuples, NaN, tuples containing NaN (each equal to itself only, as one object), booleans, nil, classes, ranges, and unhashable values; a sixth of the histories use up to 48 distinct numeric keys to force growth. Oracle: association-list map with the language's == (reference interpreter); enumerations compared as multisets; unhashable keys must give ValueError and leave the map unchanged (final full scan). Non-trivial: a lookup after a removal with >=4 inserts; distinct by program text. Family key_pairs: 1-4 pairs of hashable key expressions (35 expressions incl. equal numbers, zeros, NaN, strings, tuples, classes, ranges; half of the pairs are two ranges with equal bounds, bare or inside a tuple, built before and after 0-12 other ranges so that the second may or may not be the same object); the program prints only whether the map agrees with ==: has_key, get, insert-then-len, a tuple key wrapping each, keys().len(), remove-then-len, each compared with the truth value of k1 == k2; judged without the reference interpreter: every line must be true.",
+        rule: "cases: histories (up to 60 operations on two maps) of literal construction, insert, remove, get, has_key, clear, len, keys/values/items and map == over a per-history key pool drawn from 47 key expressions: equal keys built differently (1, 2-1, 0.5+0.5; 0, -0, 0*-1; \"ab\", \"a\"+\"b\", a slice; equal tuples and nested tuples built separately; tuples with 0 vs -0), hash-colliding tuples, NaN, tuples containing NaN (each equal to itself only, as one object), booleans, nil, classes, ranges, and unhashable values; a sixth of the histories use up to 48 distinct numeric keys to force growth, one in twelve builds a map from a literal with 100-255 further entries and probes its first, middle and last entries. Oracle: association-list map with the language's == (reference interpreter); enumerations compared as multisets; unhashable keys must give ValueError and leave the map unchanged (final full scan). Non-trivial: a lookup after a removal with >=4 inserts; distinct by program text. Family key_pairs: 1-4 pairs of hashable key expressions (35 expressions incl. equal numbers, zeros, NaN, strings, tuples, classes, ranges; half of the pairs are two ranges with equal bounds, bare or inside a tuple, built before and after 0-12 other ranges so that the second may or may not be the same object); the program prints only whether the map agrees with ==: has_key, get, insert-then-len, a tuple key wrapping each, keys().len(), remove-then-len, each compared with the truth value of k1 == k2; judged without the reference interpreter: every line must be true.",
         nontrivial: nt_c12,
         floors: vec![("gen:insert", 50_000), ("gen:get_after_remove", 20_000), ("gen:enumerate", 5_000), ("gen:map_eq", 3_000), ("ev:err:ValueError", 5_000), ("gen:key_pairs", 10_000), ("gen:key_pair_after_range_churn", 5_000)],
         assumptions: vec!["at most two distinct ranges per history, so range identity (an 8-entry cache in yarel) coincides with structural equality"],
